@@ -1,0 +1,104 @@
+//go:build verif
+
+package main
+
+import (
+	"bufio"
+	"fmt"
+	"math/rand"
+	"os"
+	"runtime"
+	"strconv"
+	"strings"
+	"sync"
+	"time"
+)
+
+// Verification hooks (build tag "verif").  They do nothing unless one of
+//   XSEL_VERIF_TRACE=<file>  append one line "<seq> <point> <path>" per hook point
+//   XSEL_VERIF_YIELD=<seed>  yield / sleep pseudo-randomly at hook points
+//   XSEL_VERIF_SCHED=<file>  block each hook point until it is the next "<point> <path>" line of the file
+// is set.
+
+var verifState struct {
+	once  sync.Once
+	mu    sync.Mutex
+	cond  *sync.Cond
+	out   *bufio.Writer
+	file  *os.File
+	seq   int
+	rng   *rand.Rand
+	sched []string
+	gave  bool
+}
+
+func verifInit() {
+	verifState.cond = sync.NewCond(&verifState.mu)
+	if p := os.Getenv("XSEL_VERIF_TRACE"); p != "" {
+		f, err := os.OpenFile(p, os.O_CREATE|os.O_WRONLY|os.O_APPEND, 0o644)
+		if err == nil {
+			verifState.file = f
+			verifState.out = bufio.NewWriter(f)
+		}
+	}
+	if s := os.Getenv("XSEL_VERIF_YIELD"); s != "" {
+		seed, _ := strconv.ParseInt(s, 10, 64)
+		verifState.rng = rand.New(rand.NewSource(seed))
+	}
+	if p := os.Getenv("XSEL_VERIF_SCHED"); p != "" {
+		if b, err := os.ReadFile(p); err == nil {
+			for _, l := range strings.Split(string(b), "\n") {
+				if l = strings.TrimSpace(l); l != "" {
+					verifState.sched = append(verifState.sched, l)
+				}
+			}
+		}
+	}
+}
+
+func verifPoint(point, path string) {
+	verifState.once.Do(verifInit)
+	if verifState.out == nil && verifState.rng == nil && verifState.sched == nil {
+		return
+	}
+	if verifState.rng != nil {
+		verifState.mu.Lock()
+		k := verifState.rng.Intn(8)
+		verifState.mu.Unlock()
+		switch {
+		case k < 3:
+			runtime.Gosched()
+		case k == 3:
+			time.Sleep(time.Duration(50+k*37) * time.Microsecond)
+		}
+	}
+	verifState.mu.Lock()
+	defer verifState.mu.Unlock()
+	if verifState.sched != nil && !verifState.gave {
+		me := point + " " + path
+		deadline := time.Now().Add(3 * time.Second)
+		for len(verifState.sched) > 0 && verifState.sched[0] != me && !verifState.gave {
+			if time.Now().After(deadline) {
+				verifState.gave = true // the schedule is not realisable: stop gating
+				verifState.cond.Broadcast()
+				break
+			}
+			// wake up periodically to notice the deadline
+			go func() { time.Sleep(100 * time.Millisecond); verifState.cond.Broadcast() }()
+			verifState.cond.Wait()
+		}
+		if len(verifState.sched) > 0 && verifState.sched[0] == me {
+			verifState.sched = verifState.sched[1:]
+		}
+		verifState.cond.Broadcast()
+	}
+	if verifState.out != nil {
+		verifState.seq++
+		status := ""
+		if verifState.gave {
+			status = " sched-gave-up"
+		}
+		fmt.Fprintf(verifState.out, "%d %s %s%s\n", verifState.seq, point, path, status)
+		verifState.out.Flush()
+	}
+}
